@@ -2,8 +2,9 @@
 (* Acceptor for the real `merge` on pairs of packed encodings (harness `packed-replay`) against PackedMerge.tla. *)
 (*   Inv_C12_InSlot/packed-merge       resulting spans overlap or leave the extent of the inputs; a piece that a   *)
 (*                                     judgement places in an input span's variable leaves that span's width       *)
-(*   Inv_C14_Components/packed-merge   the result is not the common refinement of the inputs, or an input span's   *)
-(*                                     variable is not tied to exactly the refined spans within it                 *)
+(*   Inv_C14_Components/packed-merge   the resulting spans do not tile an input span, or its variable is not tied   *)
+(*                                     to exactly the spans within it (a result other than the common refinement    *)
+(*                                     that satisfies this is only counted: `drift`)                               *)
 (*   Inv_C01_Total/packed-merge        the combination panicked                                                    *)
 EXTENDS PackedMerge, Json, IOUtils, TLC
 
@@ -19,9 +20,9 @@ Verdict(e) ==
     IN IF e.kind = "panic" THEN {"Inv_C01_Total/packed-merge"}
        ELSE IF e.kind # "packed" THEN {"Inv_C14_Components/packed-merge"}
        ELSE (IF WithinExtent(P, Q, e.out) /\ PiecesInside(P, Q, e.out) THEN {} ELSE {"Inv_C12_InSlot/packed-merge"})
-            \cup (IF Refines(P, Q, e.out) /\ Components(P, Q, e.out) THEN {} ELSE {"Inv_C14_Components/packed-merge"})
+            \cup (IF Components(P, Q, e.out) THEN {} ELSE {"Inv_C14_Components/packed-merge"})
 
-Init == l = 1 /\ viol = << >> /\ cnt = [pairs |-> 0, refined |-> 0] /\ TLCSet(1, << >>) /\ TLCSet(2, cnt)
+Init == l = 1 /\ viol = << >> /\ cnt = [pairs |-> 0, refined |-> 0, drift |-> 0] /\ TLCSet(1, << >>) /\ TLCSet(2, cnt)
 
 Next ==
     /\ l <= Len(Rec)
@@ -30,7 +31,8 @@ Next ==
        IF e.ev # "packed" THEN UNCHANGED <<viol, cnt>>
        ELSE LET f == Verdict(e) IN
             /\ viol' = IF f # {} /\ Len(viol) < 12 THEN Append(viol, [at |-> l, inv |-> f]) ELSE viol
-            /\ cnt' = [cnt EXCEPT !.pairs = @ + 1, !.refined = @ + (IF Len(e.out.judgs) > 0 THEN 1 ELSE 0)]
+            /\ cnt' = [cnt EXCEPT !.pairs = @ + 1, !.refined = @ + (IF Len(e.out.judgs) > 0 THEN 1 ELSE 0),
+                                  !.drift = @ + (IF e.kind = "packed" /\ ~Refines(AsSet(e.a), AsSet(e.b), e.out) THEN 1 ELSE 0)]
     /\ TLCSet(1, viol') /\ TLCSet(2, cnt')
 
 TraceSpec == Init /\ [][Next]_<<l, viol, cnt>>
